@@ -327,12 +327,31 @@ theorem C08_take_drop_callbacks_differ :
       = [[.linked], [.update 1 none 10 [(1, 10)]], [.update 2 none 20 [(1, 10), (2, 20)]], [.remove 1 10 [(2, 20)]]] := by
   decide
 
-/-! ### statements not yet proved -/
+/-- **take / drop callbacks (hosted):** on a key-sorted replica `take n` / `drop n` (`n < len`) fire one `on_remove` per
+removed entry, in key order, with the true removed value and the map after that removal (the monitor's reference shape). -/
+theorem C08_hosted_take_drop_callback_shape (m : AMap) (n : Nat) (hs : SortedK m) (hn : n < m.length) :
+    (hEvent m (.take n) true).2 = refRemoveSeq m (m.drop n) ∧ (hEvent m (.drop n) true).2 = refRemoveSeq m (m.take n) := by
+  constructor
+  · simp only [hEvent, hn, ↓reduceIte]
+    rw [← keys_drop]
+    exact removeSeq_snd_sorted m (m.drop n) hs (List.drop_sublist n m)
+  · have : ¬ m.length ≤ n := by omega
+    simp only [hEvent, this, ↓reduceIte]
+    rw [← keys_take]
+    exact removeSeq_snd_sorted m (m.take n) hs (List.take_sublist n m)
 
-/-- the callback trace of the hosted downlink for `take` / `drop` is the sequential-removal shape of the monitor
-(`refRemoveSeq`), resp. one `on_clear` for `drop n ≥ len`. -/
-def C08_hosted_take_drop_callback_shape_open : Prop :=
-  ∀ (m : AMap) (n : Nat), SortedK m → n < m.length →
-    (hEvent m (.take n) true).2 = refRemoveSeq m (m.drop n) ∧ (hEvent m (.drop n) true).2 = refRemoveSeq m (m.take n)
+example : SortedK [(1, 10), (2, 20), (3, 30)] := by simp [SortedK, keys]
+
+/-- The client's callbacks for `take` / `drop` agree with the hosted downlink's — false of the current code (F5b);
+provable once `fixes/F5b.patch` is applied and `cEvent` follows it. -/
+def C08_client_eq_hosted_take_drop_callbacks : Prop :=
+  ∀ (m : AMap) (e : Msg) (d : Bool), SortedK m → (match e with | .take _ => True | .drop n => n < m.length | _ => False) →
+    (cEvent m e d).2 = (hEvent m e d).2
+
+theorem C08_client_eq_hosted_take_drop_callbacks_fails : ¬ C08_client_eq_hosted_take_drop_callbacks := by
+  intro h
+  have := h [(1, 10), (2, 20)] (.take 1) false (by simp [SortedK, keys]) trivial
+  revert this
+  decide
 
 end SwimVerif.Dl
